@@ -131,6 +131,7 @@ func main() {
 	genManager()
 	genManagerCFG()
 	genRouter()
+	genListen()
 	if forProp == "" || forProp == "C15" {
 		genLockset()
 	}
